@@ -110,11 +110,11 @@ def run(ctx, spec):
         rng = ctx.rng("wide")
         nw = 0
         for _ in range(3000 if ctx.tier == "quick" else 40000):
-            bits = rng.choice([12, 16, 17, 24, 31, 32, 33, 40, 63, 64, 65, 70])
+            bits = rng.choice([12, 16, 17, 24, 31, 32, 33, 40, 63, 64, 65, 70, 128, 129, 130, 192, 200, 257, 300])
             parent = 0
             pos = 0
             while pos < bits:
-                ln = rng.choice([1, 1, 2, 3, 5, 8, 9, 16])
+                ln = rng.choice([1, 1, 2, 3, 5, 8, 9, 16] if bits <= 70 else [1, 1, 2, 7, 16, 33, 63, 64, 65, 100])
                 if rng.random() < 0.5:
                     parent |= ((1 << ln) - 1) << pos
                 pos += ln
@@ -127,6 +127,15 @@ def run(ctx, spec):
                     child |= ((1 << ln) - 1) << pos
                 pos += ln
             child &= parent if rng.random() < 0.9 else (1 << bits) - 1
+            if bits > 70 and rng.random() < 0.5:
+                # machine-word boundaries: an element kept (or lost) exactly at position 63 / 127 / 191 and at 64 / 128 / 192
+                for edge in (63, 64, 127, 128, 191, 192):
+                    if edge < bits and rng.random() < 0.5:
+                        parent |= 1 << edge
+                        if rng.random() < 0.6:
+                            child |= 1 << edge
+                        else:
+                            child &= ~(1 << edge)
             if child == 0:
                 continue
             for edges in (True, False):
